@@ -70,6 +70,13 @@ Theorem C14_shipped_rules_history_independent : forall r, In r RuleCfgs.all ->
 Proof. exact shipped_rules_history_independent. Qed.
 Print Assumptions C14_shipped_rules_history_independent.
 
+(* B. ... and for the whole target operation: all match attempts it makes on the rule object *)
+Theorem C14_shipped_rules_target_history_independent : forall r, In r RuleCfgs.all ->
+  forall (h ms : list (oracle * nat * trace)) (s0 : state),
+    run_target r ms (run_history r h s0) = run_target r ms s0.
+Proof. exact shipped_rules_target_history_independent. Qed.
+Print Assumptions C14_shipped_rules_target_history_independent.
+
 (* B. FoldConstantsPass.call: _reset() re-initialises every field the visitors read *)
 Theorem C14_fold_pass_history_independent : forall r, In r RuleCfgs.passes ->
   forall (h : list (oracle * nat * trace)) (s0 : state) orc fuel tr,
